@@ -3,8 +3,8 @@
    torsor formulas are regenerated from the Go source on every run. *)
 From Coq Require Import ZArith QArith Qabs Reals List Bool Arith.
 From Inkfem Require Import Num.NumOps Gen.GenLoads Gen.GenRecover Spec.Stiffness
-  Model.Types Model.Slice Model.Loads Model.Dof Model.Assemble Model.Recover
-  Proofs.RecoverProofs Proofs.FieldProofs Proofs.LinearProofs.
+  Model.Types Model.Slice Model.Loads Model.Dof Model.Assemble Model.Recover Spec.Resultant
+  Proofs.RecoverProofs Proofs.FieldProofs Proofs.LinearProofs Proofs.ScaleProofs.
 Import ListNotations.
 
 (* equivalent nodal loads: linear in the load intensities, all real numbers *)
@@ -86,3 +86,27 @@ Theorem C06_zero_loads_zero_solution : forall n Kinv K u,
   forall i, (i < n)%nat -> u i == 0.
 Proof. exact zero_loads_zero_solution. Qed.
 Print Assumptions C06_zero_loads_zero_solution.
+
+(* a whole bar (Model/Slice.v slice_bar: positions from the loads, the regenerated lump_gen per
+   finite element, concentrated loads at their node, bar-end loads of a pinned bar): multiplying
+   every concentrated and distributed load of the bar by a keeps the slicing (same number of
+   nodes, same positions, same coordinates) and multiplies the external, left and right load of
+   every node by a.  a = 0: a bar whose loads all have value zero has only zero nodal loads. *)
+Theorem C06_scaling_the_loads_of_a_bar_scales_every_nodal_load : forall (a : Q) (b : bar Q),
+  Forall2 (fun n n' => pn_t n' = pn_t n /\ pn_x n' = pn_x n /\ pn_y n' = pn_y n /\
+             tor_eq (pn_ext n') (tscale a (pn_ext n)) /\ tor_eq (pn_left n') (tscale a (pn_left n)) /\
+             tor_eq (pn_right n') (tscale a (pn_right n)))
+          (slice_bar b) (slice_bar (scale_bar a b)).
+Proof. exact slice_bar_scales. Qed.
+Print Assumptions C06_scaling_the_loads_of_a_bar_scales_every_nodal_load.
+
+(* not vacuous: a bar with a partial trapezoidal load and a point load is cut at the load's ends and
+   at the point load, and its nodes do carry loads *)
+Definition c06_bar : bar Q := {| b_n1 := 0; b_n2 := 1; b_l1 := rigid; b_l2 := rigid; b_x1 := 0; b_y1 := 0; b_x2 := 3; b_y2 := 4;
+  b_L := 5; b_c := 3 # 5; b_s := 4 # 5; b_E := 1; b_A := 1; b_I := 1; b_S := 1; b_rho := 0;
+  b_cl := [ {| cl_term := FY; cl_local := false; cl_t := 1 # 3; cl_v := - (7 # 1) |} ];
+  b_dl := [ {| dl_term := FY; dl_local := true; dl_t0 := 1 # 4; dl_v0 := - (2 # 1); dl_t1 := 3 # 4; dl_v1 := - (5 # 1) |} ] |}.
+Example C06_bar_example : length (slice_bar c06_bar) = 14%nat /\
+  existsb (fun n => negb (Qeq_bool (t_fy (pn_ext n)) 0)) (slice_bar c06_bar) = true /\
+  existsb (fun n => negb (Qeq_bool (t_mz (pn_left n)) 0)) (slice_bar c06_bar) = true.
+Proof. vm_compute. repeat split; reflexivity. Qed.
